@@ -14,9 +14,43 @@
   for other commands, in any order. The model does not even enforce the queue
   mutex, so the theorems also cover commands truly in flight at the same time.
 -/
+import ControlModel.Gen.ServentFacts
 import ControlModel.Proofs.CmdQueue
 
 open CmdQueue
+
+/-! ## the code the model is about (go/ast facts, regenerated on every check)
+
+These pin the statements of `Servent` and `consolidateResponses` that the
+model's `step` transcribes but that a black-box run cannot fully observe (a
+missing `delete` only shows as a leaked goroutine / a growing map). -/
+
+/-- The key is (command id, target) on both sides: `RunCommand` registers
+    `CallId{cmd.GetId(), receiver}`, `ProcessResponse` looks up
+    `CallId{res.GetCommandId(), sender}` — `keyOf?` / `Resp.key`. -/
+theorem C12_key_is_code :
+    Gen.C12.callIdFields = ["Id xid.ID", "Target MesosCommandTarget"] ∧
+    Gen.C12.runCommandKey = "CallId{ Id: cmdId, Target: receiver, }" ∧
+    Gen.C12.processResponseKey = "CallId{ Id: res.GetCommandId(), Target: sender, }" := by decide
+
+/-- `RunCommand`: register under the lock; unregister under the lock on send
+    error and on timeout (`finish … true`), and only there; block on exactly
+    `call.Done` or the command's response timeout. `ProcessResponse`:
+    lookup-and-delete under the lock, then hand over on `call.Done` (`deliver`). -/
+theorem C12_servent_is_code :
+    Gen.C12.runCommandOps =
+      ["s.pending[callId] = call locked=true", "delete(s.pending, callId) locked=true",
+       "call.Error = fmt.Errorf(\"%s timed out for task %s\", cmd.GetName(), receiver.TaskId.Value)",
+       "delete(s.pending, callId) locked=true"] ∧
+    Gen.C12.runCommandSelect = ["<-call.Done", "<-time.After(cmd.GetResponseTimeout())"] ∧
+    Gen.C12.processResponseOps =
+      ["call, ok := s.pending[callId] locked=true", "delete(s.pending, callId) locked=true",
+       "call.Response = res", "call.Done <- empty{}"] := by decide
+
+/-- `consolidateResponses`: 0 ⇒ nil, 1 ⇒ that response, else a multi-response (`consolidate`). -/
+theorem C12_consolidate_is_code :
+    Gen.C12.consolidateShape =
+      ["if len(responses) == 0", "if len(responses) == 1", "return &MesosCommandMultiResponse"] := by decide
 
 /-- Distinct command ids and distinct targets make the keys of different
     callers different. -/
